@@ -2,6 +2,8 @@ import SplinkVerif.Drv.CC
 import SplinkVerif.Drv.MultiThreshold
 import SplinkVerif.Drv.Blocking
 import SplinkVerif.Drv.Score
+import SplinkVerif.Drv.Arith
+import SplinkVerif.Drv.BlockingAnalysis
 /-! Line-protocol driver: one JSON object per input line, one JSON object per output line. -/
 open Lean SplinkVerif.Drv
 
@@ -12,6 +14,8 @@ def dispatch (j : Json) : Except String Json := do
   | "multi" => handleMulti j
   | "block" => handleBlock j
   | "score" => handleScore j
+  | "arith" => handleArith j
+  | "blockanalysis" => handleBlockAnalysis j
   | "ping" => pure (Json.mkObj [("pong", Json.bool true)])
   | _ => throw s!"unknown op {op}"
 
